@@ -32,7 +32,7 @@ Bind(s, st) ==
     /\ hist' = HistOf(st.hist)
 
 TInit == /\ tid = 0 /\ l = 0 /\ nev = 0
-         /\ scn = [sched |-> <<>>, workerOf |-> <<>>, W |-> 0]
+         /\ scn = [sched |-> <<>>, workerOf |-> <<>>, W |-> 0, m |-> 1, cols |-> <<>>, alloc |-> {}, cp |-> <<>>, acp |-> <<>>]
          /\ d2w = <<>> /\ w2d = <<>> /\ rcbox = <<>> /\ timers = <<>> /\ dtimers = <<>>
          /\ d2d = <<>> /\ rc2d = <<>> /\ rcst = InitRc /\ flt = [kind |-> "none", armed |-> FALSE, fired |-> FALSE]
          /\ drv = InitDrv
@@ -109,17 +109,17 @@ Holds(c, e) ==
 StartTrace ==
     /\ tid < Len(Traces) /\ (IF tid = 0 THEN TRUE ELSE l > Len(Traces[tid].events))
     /\ LET tr == Traces[tid + 1] IN
-         /\ Bind(tr.scn, tr.init)
+         /\ Bind(WithDerived(tr.scn), tr.init)
          /\ act' = [name |-> "Init"]
-         /\ LET initOk == /\ d2w' = [w \in Workers(tr.scn) |-> <<Msg("Bootstrap"), Msg("StartWorker")>>]
-                          /\ w2d' = [w \in Workers(tr.scn) |-> <<>>] /\ rcbox' = <<>>
+         /\ LET initOk == /\ d2w' = [w \in 1..tr.scn.W |-> <<Msg("Bootstrap"), Msg("StartWorker")>>]
+                          /\ w2d' = [w \in 1..tr.scn.W |-> <<>>] /\ rcbox' = <<>>
                           /\ d2d' = <<>> /\ rc2d' = <<>> /\ rcst' = InitRc /\ ~flt'.armed /\ ~flt'.fired
-                          /\ timers' = [w \in Workers(tr.scn) |-> 0] /\ dtimers' = <<"tick">>
+                          /\ timers' = [w \in 1..tr.scn.W |-> 0] /\ dtimers' = <<"tick">>
                           /\ drv' = InitDrv
-                          /\ wk' = [w \in Workers(tr.scn) |-> InitWk]
-                          /\ cell' = [c \in Clients(tr.scn) |-> Idle]
+                          /\ wk' = [w \in 1..tr.scn.W |-> InitWk]
+                          /\ cell' = [c \in 0..(ComputeM(tr.scn) - 1) |-> Idle]
                           /\ hist' = InitHist
-                          /\ Len(tr.scn.workerOf) = M(tr.scn)
+                          /\ Len(tr.scn.workerOf) = ComputeM(tr.scn)
             IN IF initOk THEN TRUE ELSE PrintT(<<"V", tr.id, 0, "L2", {}>>)
     /\ tid' = tid + 1 /\ l' = 1 /\ nev' = nev
 
